@@ -257,7 +257,8 @@ func (d *c20Drv) finish(expectHanded int) {
 }
 
 func c20ConcScenarios() []*explore.Scenario {
-	q, th := explore.Bounds{P: 2}, explore.Bounds{P: 3}
+	// classic preemption bounding (FreeSwitch): the harnesses have 4 threads, which keeps it feasible
+	q, th := explore.Bounds{P: 2, FreeSwitch: true}, explore.Bounds{P: 3, FreeSwitch: true}
 	return []*explore.Scenario{
 		// reader || registrar (which also injects, so some packets are ordered after add/remove
 		// by construction) || event consumer; event buffer 1
